@@ -37,6 +37,7 @@ Definition edge_allowed (s : state) (o : op) (r : res) (v k : Z) (a : option sta
     | OReset, Some _ => status_eqb b SActive
     | OUpPause vs, Some SActive => smem v vs && status_eqb b SPaused
     | OEndBlock, None => status_eqb b SActive && match lookup v (st_pend s) with Some _ => true | None => false end
+    | ORotate t t', None => (v =? t')%Z && ostatus_eqb (status_of (st_vals s) t) b     (* the record moves unchanged *)
     | _, _ => false
     end
   | _ => false
@@ -57,12 +58,13 @@ Definition step_clauses (cfg : config) (g : ghost) (s s' : state) (o : op) (r : 
                   let a := status_of vals v in
                   if ostatus_eqb a b then [] else
                   if edge_allowed s o r v (v_cons (snd e)) a b then [] else [edge_name o a b]) vals' in
-  let c_gone := if forallb (fun e : Z * vrec => match lookup (fst e) vals' with Some _ => true | None => false end) vals then [] else ["validator-removed"] in
+  let c_gone := if forallb (fun e : Z * vrec => match lookup (fst e) vals' with Some _ => true | None => false end
+                                            || match o with ORotate t _ => (fst e =? t)%Z | _ => false end) vals then [] else ["validator-removed"] in
   (* a validator held in jail becomes active only through a rank reset (an unjail releases it first) *)
   let c_escape := flat_map (fun e : Z * vrec =>
                   let v := fst e in
                   if is_active (v_status (snd e)) && negb (ostatus_eqb (status_of vals v) SActive) && smem v (g_held g)
-                     && negb (match o with OReset => true | _ => false end)
+                     && negb (match o with OReset | ORotate _ _ => true | _ => false end)
                   then ["jail-escape:" ++ op_label o] else []) vals' in
   let c_op :=
     match o, r with
@@ -107,8 +109,15 @@ Definition step_clauses (cfg : config) (g : ghost) (s s' : state) (o : op) (r : 
 Definition zset (v x : Z) (l : list (Z * Z)) : list (Z * Z) := upd v x l.
 
 (* ghost bookkeeping after the step *)
+Definition zmove (v v' : Z) (l : list (Z * Z)) : list (Z * Z) :=
+  match lookup v l with Some x => upd v' x (del v l) | None => del v' l end.
 Definition ghost_next (cfg : config) (g : ghost) (s s' : state) (o : op) (r : res) : ghost :=
   let vals := st_vals s in let vals' := st_vals s' in
+  match o with
+  | ORotate t t' => (* the checker's counters follow the record to its new address *)
+      mkG (zmove t t' (g_run g)) (zmove t t' (g_jailt g)) (zmove t t' (g_until g))
+          (if smem t (g_held g) then sadd t' (sdel t (g_held g)) else sdel t' (g_held g))
+  | _ =>
   (* operation-specific counters *)
   let g1 :=
     match o, r with
@@ -142,7 +151,8 @@ Definition ghost_next (cfg : config) (g : ghost) (s s' : state) (o : op) (r : re
                    | _ => a end
     | SActive => mkG (g_run a) (g_jailt a) (g_until a) (sdel v (g_held a))   (* an escape is reported once *)
     | _ => a
-    end) vals' g1.
+    end) vals' g1
+  end.
 
 Fixpoint c15_clauses (cfg : config) (g : ghost) (s : state) (l : list (op * obs)) : list string :=
   match l with
